@@ -1,6 +1,7 @@
 """C13 - Schema validation rejects every structurally invalid message."""
 import ast
 
+from ..match import facts, Q
 from ..srcmodel import attr_chain, call_name, unparse, norm_text, walk_no_nested
 from ..cfg import cfg_of, raised_class
 from ..tables import reflect
@@ -159,10 +160,10 @@ def v4_engine(run):
               "loops are %s" % loops, fi.loc())
     # required and empty
     req = [r for r in cfg.by_kind("raise")
-           if {("required and (not value)", True)} <=
-           {(unparse(e), p) for e, p, _ in cfg.guards(r.id)} or
-           {("required", True), ("value", False)} <=
-           {(unparse(e), p) for e, p, _ in cfg.guards(r.id)}]
+           if {Q("required and (not value)", True)} <=
+           facts(cfg, r.id) or
+           {Q("required", True), Q("value", False)} <=
+           facts(cfg, r.id)]
     run.check(len(req) == 1 and raised_class(req[0].ast) in
               ("MustValueError", "NotValid"), "V4",
               fi.qual + "::required-missing=>raise",
@@ -183,8 +184,8 @@ def v4_engine(run):
               "typed validation calls changed (%d found)" % len(vcalls),
               fi.loc())
     for nd in vcalls:
-        gs = {(unparse(e), p) for e, p, _ in cfg.guards(nd.id)}
-        run.check(("value", True) in gs and not any(
+        gs = facts(cfg, nd.id)
+        run.check(Q("value", True) in gs and not any(
             "required" in g and p for g, p in gs), "V4",
             fi.qual + "::typed-validation-guard@" + norm_text(nd.ast)[:40],
             "applied to every non-empty value, required or not",
@@ -220,8 +221,8 @@ def v4_engine(run):
               "raise iff len - max > 0", "no raise with normal form "
               "len - max > 0 (too many occurrences are accepted)", fi.loc())
     emp = [r for r in cfg.by_kind("raise")
-           if {(unparse(e), p) for e, p, _ in cfg.guards(r.id)} ==
-           {("value", False), ("_cmin", True)}]
+           if facts(cfg, r.id) ==
+           {Q("value", False), Q("_cmin", True)}]
     run.check(len(emp) == 1, "V4", fi.qual + "::absent-with-min=>raise",
               "an absent child with a positive minimum raises",
               "absent required children are accepted", fi.loc())
@@ -251,8 +252,8 @@ def v4_engine(run):
               "every list element and every single child is validated",
               "recursion sites: %s" % argsets, fi.loc())
     for nd, c in rec:
-        gs = {(unparse(e), p) for e, p, _ in cfg.guards(nd.id)}
-        run.check(("value", True) in gs and not any(
+        gs = facts(cfg, nd.id)
+        run.check(Q("value", True) in gs and not any(
             "_card" in g or "_cmin" in g or "_cmax" in g for g, p in gs), "V4",
             fi.qual + "::recursion-guard@" + unparse(c.args[1]),
             "recursion does not depend on the presence of a bound",
@@ -269,9 +270,9 @@ def v4_engine(run):
     # text
     tv = [nd for nd, c in cfg.call_nodes("validate_value_type")
           if "instance.text" in unparse(c.args[0])]
-    run.check(len(tv) == 1 and {("instclass.c_value_type", True),
-                                ("instance.text", True)} <=
-              {(unparse(e), p) for e, p, _ in cfg.guards(tv[0].id)}
+    run.check(len(tv) == 1 and {Q("instclass.c_value_type", True),
+                                Q("instance.text", True)} <=
+              facts(cfg, tv[0].id)
               if tv else False, "V4", fi.qual + "::text",
               "text is validated against c_value_type when both exist",
               "text validation changed", fi.loc())
